@@ -169,9 +169,10 @@ func (s *storage) walkPack(verbose bool, packID int,
 	name := fh.Name()
 
 	var (
-		pos  int64
-		size uint32
-		ref  blob.Ref
+		pos      int64
+		size     uint32
+		ref      blob.Ref
+		packSize int64 // size of the pack file when last checked
 	)
 
 	errAt := func(prefix, suffix string) error {
@@ -212,6 +213,21 @@ func (s *storage) walkPack(verbose bool, packID int,
 			return errAt(fmt.Sprintf("cannot parse size %q as int", chunk[i+1:]), err.Error())
 		}
 		size = uint32(size64)
+
+		// A crash in the middle of an append leaves a header whose blob
+		// is not (completely) there. That blob was never indexed nor
+		// acknowledged: stop here, as for a torn header above, instead of
+		// reporting an extent that runs past the end of the pack.
+		if end := pos + 1 + int64(m) + int64(size); end > packSize {
+			fi, err := fh.Stat() // the pack may have grown since we last looked
+			if err != nil {
+				return errAt("", "cannot stat: "+err.Error())
+			}
+			if packSize = fi.Size(); end > packSize {
+				log.Printf("diskpacked: ignoring truncated blob %q at %d in %q: needs %d bytes, pack has %d", chunk[:i], pos, name, end, packSize)
+				break
+			}
+		}
 
 		if deletedBlobRef.Match(chunk[:i]) {
 			ref = blob.Ref{}
